@@ -238,8 +238,14 @@ pub fn check_doc(lang: SupportLang, fname: &str, src: &str, doc: &Doc4, rep: &mu
     } else {
       f += 1
     }
+    ctx.ambiguous.set(false);
     let want = global_aware_eval(doc, &n, &ctx).map(|e| e.summary());
     if got == want {
+      continue;
+    }
+    if ctx.ambiguous.get() {
+      // a parent with several children under the requested field: the statement leaves the choice open
+      rep.count("nodes_skipped_ambiguous_field", 1);
       continue;
     }
     // attribution: which leak emulation (threaded environment) reproduces the implementation exactly?
@@ -388,7 +394,7 @@ fn gen_doc(h: &Harvest, anchor: Option<&str>, rng: &mut Rng, depth: usize) -> Do
     strip_of_rule_patterns(&mut r);
     utils.insert(format!("U{i}"), r);
   }
-  let cfg = GenCfg { picks: std::cell::Cell::new(0), disjoint_vars: false, max_depth: depth, utils: utils.keys().cloned().collect(), allow_field: false, allow_range: false };
+  let cfg = GenCfg { picks: std::cell::Cell::new(0), disjoint_vars: false, max_depth: depth, utils: utils.keys().cloned().collect(), allow_field: true, allow_range: false };
   let mut body = if rng.chance(3, 4) { gen_targeted(h, &mut utils, rng) } else { rule::gen_rule(h, &cfg, 0, rng) };
   strip_of_rule_patterns(&mut body);
   let p0 = match anchor {
@@ -870,7 +876,7 @@ pub fn run(ctx: &Ctx, rep: &mut Report) {
     // (c) one variable for two occurrences, judged by token sequences
     repeated_source(f.lang, &f.name, &text, if ctx.thorough { 400 } else { 40 }, &mut rng, rep);
     repeated_multi_source(f.lang, &f.name, &text, if ctx.thorough { 200 } else { 25 }, &mut rng, rep);
-    let h = rule::harvest(&root, &text, pats, vec![], &mut rng);
+    let h = rule::harvest(&root, &text, pats, crate::mon::c05::field_names(f.lang), &mut rng);
     for _ in 0..per_file {
       let doc = gen_doc(&h, None, &mut rng, 3);
       if let Some((t, fl)) = check_doc(f.lang, &f.name, &text, &doc, rep) {
